@@ -202,6 +202,37 @@ func (c *Check) scanDirections(prune, pruneFrom *ssa.Function) {
 				}
 			}
 		}
+		// the scan written as a library search: slices.IndexFunc looks from index 0 upwards and
+		// stops at the first match
+		for _, sf := range dedupFns(scanFns) {
+			for _, b := range sf.Blocks {
+				for _, ins := range b.Instrs {
+					call, ok := ins.(*ssa.Call)
+					if !ok || call.Call.StaticCallee() == nil || fnPkgPath(call.Call.StaticCallee()) != "slices" || len(call.Call.Args) != 2 {
+						continue
+					}
+					name := call.Call.StaticCallee().Name()
+					if !strings.HasPrefix(name, "IndexFunc") && !strings.HasPrefix(name, "Index[") && name != "Index" {
+						continue
+					}
+					fa := fieldAddrOf(call.Call.Args[0])
+					if fa == nil {
+						continue
+					}
+					T, F := fieldOf(fa.X.Type(), fa.Field)
+					if !(T == "profile.Location" && F == "Line") && !(T == "profile.Sample" && F == "Location") {
+						continue
+					}
+					n++
+					key := fmt.Sprintf("scan:%s:%s.%s", spec.f.Name(), T, F)
+					if spec.down {
+						c.bad("C11-R5", key, p.relFile(call.Pos()), spec.f.Name()+" must scan "+T+"."+F+" downwards from the last index (root side first) because it stops at the first match, but slices.IndexFunc searches from index 0")
+					} else {
+						c.ok("C11-R5", key, p.relFile(call.Pos()), spec.f.Name()+" scans "+T+"."+F+" upwards from index 0 (leaf side first)", "slices.IndexFunc returns the lowest matching index")
+					}
+				}
+			}
+		}
 		if n == 0 {
 			c.undecided("C11-R5", "scan:"+spec.f.Name(), p.relFile(spec.f.Pos()), "no scan over Location.Line / Sample.Location found")
 		}
@@ -762,7 +793,23 @@ func (c *Check) pruneShape(prune, pruneFrom *ssa.Function) {
 		}
 	}
 	if nFlag == 0 {
-		c.undecided("C11-R7", "per-sample-flag", p.relFile(prune.Pos()), "no loop-carried flag found in the sample loop of Prune")
+		// written without a flag (for instance as two consecutive scans over the same cursor):
+		// there is no state that could survive from one sample to the next
+		carried := 0
+		for _, b := range helperBlocks(prune, 1) {
+			for _, ins := range b.Instrs {
+				if ph, ok := ins.(*ssa.Phi); ok && nestingDepth(b) >= 1 {
+					if bt, ok := ph.Type().Underlying().(*types.Basic); ok && bt.Kind() == types.Bool {
+						carried++
+					}
+				}
+			}
+		}
+		if carried == 0 {
+			c.ok("C11-R7", "per-sample-flag", p.relFile(prune.Pos()), "the per-sample scan of Prune keeps no boolean state across iterations", "no loop-carried boolean in Prune and its helpers")
+		} else {
+			c.undecided("C11-R7", "per-sample-flag", p.relFile(prune.Pos()), "no loop-carried flag found in the sample loop of Prune")
+		}
 	}
 	// ---- R8
 	nSt := 0
